@@ -3,6 +3,7 @@
 (* clock value (the TLC runs bound both). Checked in two steps:                                                   *)
 (*   apalache-mc check --cinit=CInit --init=Init    --inv=IndInv --length=0   (Init => IndInv)                    *)
 (*   apalache-mc check --cinit=CInit --init=IndInit --inv=IndInv --length=1   (IndInv /\ Next => IndInv')         *)
+(*   ... the second step again with --next=NextSetBack (the wall clock may be set back: Limiter!SetBack)           *)
 (* With --cinit=CInitDeviation (the pre-fix non-atomic check/record) the second step must FAIL.                   *)
 EXTENDS Integers, Sequences, FiniteSets, Apalache
 CONSTANTS
